@@ -18,10 +18,11 @@ type env struct {
 	old     map[string]string // state referred to by old(...)
 	inOld   bool
 	useInit bool
+	assuming bool // the expression is being assumed (hypothesis), not proved
 }
 
 func (e *env) clone() *env {
-	n := &env{g: e.g, vars: map[string]T{}, state: e.state, old: e.old, inOld: e.inOld, useInit: e.useInit}
+	n := &env{g: e.g, vars: map[string]T{}, state: e.state, old: e.old, inOld: e.inOld, useInit: e.useInit, assuming: e.assuming}
 	for k, v := range e.vars {
 		n.vars[k] = v
 	}
@@ -122,6 +123,10 @@ func (g *gen) sortOfSpecType(t string) string {
 	if strings.HasPrefix(t, "U_") {
 		g.ensureSort(t)
 		return t
+	}
+	if gt := g.w.lookupGoType(t); gt != nil {
+		s, _ := g.sortOf(gt)
+		return s
 	}
 	// a Go type of the package under contract
 	if g.fn != nil && g.fn.Pkg != nil {
@@ -690,6 +695,50 @@ func (g *gen) specCall(e *env, n *ast.CallExpr, want string, c *Clause) T {
 		ne.inOld = true
 		g.nalloc()
 		return T{S: sx(">=", sx("s.reg", a.S), ne.comp("nalloc")), Sort: sBool}
+	case "eqbytes", "eqbytesold":
+		// eqbytes(x, xo, y, yo, n): x[xo+k] == y[yo+k] for 0 <= k < n, phrased over the absolute index
+		// of x's region so that any read of that region triggers it
+		x, y := arg(0, sSlice), arg(2, sSlice)
+		xo, yo, cnt := g.toIdx(arg(1, g.idx)), g.toIdx(arg(3, g.idx)), g.toIdx(arg(4, g.idx))
+		h := g.heapSlice(bvSort(8))
+		hx := e.comp(h)
+		hy := hx
+		if name == "eqbytesold" {
+			ne := e.clone()
+			ne.inOld = true
+			hy = ne.comp(h)
+		}
+		j := fmt.Sprintf("j!q%d", g.n)
+		g.n++
+		if !e.assuming {
+			// as a goal: element-wise form (skolemises to a single index)
+			rx := sx("select", sx("select", hx, sx("s.reg", x.S)), g.idxAdd(sx("s.off", x.S), g.idxAdd(xo, j)))
+			ry := sx("select", sx("select", hy, sx("s.reg", y.S)), g.idxAdd(sx("s.off", y.S), g.idxAdd(yo, j)))
+			return T{S: fmt.Sprintf("(forall ((%s %s)) (=> (and %s %s) (= %s %s)))", j, g.idx, g.idxLe(g.idxLit(0), j), g.idxLt(j, cnt), rx, ry), Sort: sBool}
+		}
+		lo := g.idxAdd(sx("s.off", x.S), xo)
+		rx := sx("select", sx("select", hx, sx("s.reg", x.S)), j)
+		ry := sx("select", sx("select", hy, sx("s.reg", y.S)), g.idxAdd(g.idxSub(j, lo), g.idxAdd(sx("s.off", y.S), yo)))
+		return T{S: fmt.Sprintf("(forall ((%s %s)) (! (=> (and %s %s) (= %s %s)) :pattern (%s)))", j, g.idx, g.idxLe(lo, j), g.idxLt(j, g.idxAdd(lo, cnt)), rx, ry, rx), Sort: sBool}
+	case "extends":
+		// extends(r, b): r is b with elements appended: same offset in the model, and the backing
+		// arrays agree on every index below the end of b (the shape append produces)
+		x, y := arg(0, sSlice), arg(1, sSlice)
+		h := g.heapSlice(bvSort(8))
+		if x.GoT != nil {
+			if st, ok := x.GoT.Underlying().(*types.Slice); ok {
+				es, _ := g.sortOf(st.Elem())
+				h = g.heapSlice(es)
+			}
+		}
+		hx := e.comp(h)
+		j := fmt.Sprintf("j!q%d", g.n)
+		g.n++
+		end := g.idxAdd(sx("s.off", y.S), sx("s.len", y.S))
+		rx := sx("select", sx("select", hx, sx("s.reg", x.S)), j)
+		ry := sx("select", sx("select", hx, sx("s.reg", y.S)), j)
+		q := fmt.Sprintf("(forall ((%s %s)) (! (=> %s (= %s %s)) :pattern (%s)))", j, g.idx, g.idxLt(j, end), rx, ry, rx)
+		return T{S: and(sx("=", sx("s.off", x.S), sx("s.off", y.S)), g.idxLe(sx("s.len", y.S), sx("s.len", x.S)), q), Sort: sBool}
 	case "sameslice":
 		a, b := arg(0, sSlice), arg(1, sSlice)
 		return T{S: sx("=", a.S, b.S), Sort: sBool}
@@ -745,6 +794,54 @@ func (g *gen) specCall(e *env, n *ast.CallExpr, want string, c *Clause) T {
 			return fail("cannot convert %s to %s", a.Sort, name)
 		}
 		return T{S: t, Sort: s, Signed: sg}
+	}
+	if name == "atmostone" {
+		var bs []string
+		for i := range n.Args {
+			bs = append(bs, arg(i, sBool).S)
+		}
+		var parts []string
+		for i := range bs {
+			for j := i + 1; j < len(bs); j++ {
+				parts = append(parts, not(and(bs[i], bs[j])))
+			}
+		}
+		return T{S: and(parts...), Sort: sBool}
+	}
+	// alias of a pure extern: an uninterpreted function of its arguments
+	if ct, idx := g.w.aliasExtern(name); ct != nil {
+		sig := ct.Opts["sig"]
+		k := strings.Index(sig, ":")
+		if k < 0 {
+			return fail("extern %s has an alias but no sig=args:results", ct.Key)
+		}
+		var argTypes, resTypes []string
+		if sig[:k] != "" {
+			argTypes = strings.Split(sig[:k], ",")
+		}
+		resTypes = strings.Split(sig[k+1:], ",")
+		if len(n.Args) != len(argTypes) || idx >= len(resTypes) {
+			return fail("alias %s: wrong number of arguments or results", name)
+		}
+		var as, ss []string
+		for i, at := range argTypes {
+			srt := g.sortOfSpecType(at)
+			a := arg(i, srt)
+			if a.Sort != srt {
+				return fail("alias %s: argument %d has sort %s, want %s", name, i+1, a.Sort, srt)
+			}
+			as = append(as, a.S)
+			ss = append(ss, srt)
+		}
+		rs := g.sortOfSpecType(resTypes[idx])
+		fn := fmt.Sprintf("pure.%s.%d", mangle(ct.Key), idx)
+		g.ensureSort(rs)
+		g.declare(fn+strings.Join(ss, ","), fmt.Sprintf("(declare-fun %s (%s) %s)", fn, strings.Join(ss, " "), rs))
+		term := fn
+		if len(as) > 0 {
+			term = sx(fn, as...)
+		}
+		return T{S: term, Sort: rs, Signed: specTypeSigned(resTypes[idx])}
 	}
 	// spec function
 	if sf := g.w.lookupSpec(g.unit, name); sf != nil {
